@@ -174,9 +174,9 @@ def run_tlc(module, cfg, workers=1, env=None, timeout=3600, coverage=False, simu
     _tlc_counter[0] += 1
     meta = os.path.join(WORK, "tlc-%d-%d" % (os.getpid(), _tlc_counter[0]))
     os.makedirs(WORK, exist_ok=True)
-    jopts = "-Xss1g"
-    if dfs:
-        jopts += " -Dtlc2.tool.queue.IStateQueue=StateDeque"
+    jopts = "-Xss64m"
+    if dfs:     # trace validation: deep recursion while reading the trace, depth-first queue
+        jopts = "-Xss1g -Dtlc2.tool.queue.IStateQueue=StateDeque"
     cmd = ["tlc"]
     e = {"JAVA_TOOL_OPTIONS": jopts + " -Xmx" + heap}
     if env:
